@@ -140,10 +140,10 @@ def work_generated(ctx, seed):
     import random
     from basis_set_exchange import manip, sort, validator
     rng = random.Random(seed)
-    b = gen.gen_basis(rng)
-    ops = [('uncontract_general', ()), ('uncontract_spdf', (0, )), ('uncontract_segmented', ()), ('make_general', ()),
+    b = gen.gen_basis(rng) if seed % 5 else rng.choice([gen.patho_spd, gen.patho_mixed_fused, gen.patho_spd_free_low])(rng)
+    ops = [('remove_free_primitives', ()), ('uncontract_general', ()), ('uncontract_spdf', (0, )), ('uncontract_segmented', ()), ('make_general', ()),
            ('optimize_general', ()), ('prune_basis', ()), ('sort_basis', ())]
-    chain = [rng.choice(ops) for _ in range(rng.randint(1, 3))]
+    chain = [rng.choice(ops) for _ in range(rng.randint(1, 4))]
     if any(o == 'uncontract_segmented' for o, _ in chain) and any(o == 'make_general' for o, _ in chain):
         shp = shapes(b)
     cur = copy.deepcopy(b)
@@ -151,14 +151,25 @@ def work_generated(ctx, seed):
         f = getattr(sort, op) if op == 'sort_basis' else getattr(manip, op)
         r = impl.call(f, cur, *args)
         if r[0] != 'ok':
+            ctx.dist['chain-raises:%s:%s' % (op, r[1])] += 1
             return
         cur = r[1]
     pr = impl.call(manip.prune_basis, cur)
     if pr[0] != 'ok':
+        ctx.dist['chain-raises:final-prune:%s' % pr[1]] += 1
         return
     cur = pr[1]
     ctx.case((seed, tuple(chain)), True, 'generated-chain')
     from basis_set_exchange import compose
+    if any(o == 'remove_free_primitives' for o, _ in chain):
+        # "with remove_free_primitives the same holds for every element that keeps at least one function"
+        for z in [z for z, el in cur['elements'].items() if el.get('electron_shells') == [] and 'ecp_potentials' not in el]:
+            del cur['elements'][z]
+        for el in cur['elements'].values():
+            if el.get('electron_shells') == []:
+                del el['electron_shells']
+        if not cur['elements']:
+            return
     cur['function_types'] = compose._whole_basis_types(cur)
     problems = oracle.wellformed_problems(cur)
     v = impl.call(validator.validate_data, 'complete', cur)
